@@ -44,6 +44,30 @@ Definition qround_even (x : Q) : Z :=
   else if qlt_b (1 # 2) r then (f + 1)%Z
   else if Z.even f then f else (f + 1)%Z.
 
+(* Decimal(x) / Decimal(y) under getcontext().prec = 10 (set when api_stock is imported): the exact quotient rounded half-even
+   to 10 significant digits.  dec10 q rounds q; scaling by powers of ten runs on explicit fuel (|q| between 1e-40 and 1e50). *)
+Fixpoint scale_up (fuel : nat) (a : Q) (k : Z) : Q * Z :=        (* multiply by 10 while a < 10^9 *)
+  match fuel with
+  | O => (a, k)
+  | S f => if qlt_b a 1000000000 then scale_up f (qmul a 10) (k + 1)%Z else (a, k)
+  end.
+Fixpoint scale_down (fuel : nat) (a : Q) (k : Z) : Q * Z :=      (* divide by 10 while a >= 10^10 *)
+  match fuel with
+  | O => (a, k)
+  | S f => if qle_b 10000000000 a then scale_down f (qdiv a 10) (k - 1)%Z else (a, k)
+  end.
+Definition pow10 (k : Z) : Q := if (0 <=? k)%Z then zq (10 ^ k) else qdiv 1 (zq (10 ^ (- k))).
+Definition dec10 (q : Q) : Q :=
+  if qeq_b q 0 then 0
+  else
+    let a := qabs q in
+    let r1 := scale_up 50 a 0 in
+    let r2 := scale_down 50 (fst r1) (snd r1) in
+    let n := zq (qround_even (fst r2)) in
+    let v := qdiv n (pow10 (snd r2)) in
+    if qle_b 0 q then v else qneg v.
+Definition dec_div (x y : Q) : Q := dec10 (qdiv x y).
+
 (* comparison used by the correspondence check only (never inside a theorem) *)
 Definition tol : Q := 1 # 1000000000.
 Definition approx_scale (s a b : Q) : bool :=
